@@ -29,6 +29,11 @@ func C11_debug_dialer() {
 	var req, resp []byte
 	rbuf := []int{0, 40}[vChoose("readbuf", 2)]
 	d := DebugDialer{Dialer: ws.Dialer{ReadBufferSize: rbuf, NetDial: func(ctx context.Context, network, addr string) (net.Conn, error) { return conn, nil }}}
+	// together with the caller's own connection wrapper (another optional feature of the Dialer)
+	wrap := vChoose("wrapconn", 2) == 1
+	if wrap {
+		d.Dialer.WrapConn = func(c net.Conn) net.Conn { return &vWrapConn{Conn: c} }
+	}
 	onReq, onResp := vChoose("onrequest", 2) == 1, vChoose("onresponse", 2) == 1
 	if onReq {
 		d.OnRequest = func(p []byte) { req = append(req, p...) }
@@ -49,6 +54,11 @@ func C11_debug_dialer() {
 		vAssert(conn.closed, "debug.conn_closed_on_error")
 		return
 	}
+	if wrap {
+		// as with the plain Dialer, the connection handed back is the caller's wrapped one
+		_, isWrapped := c.(*vWrapConn)
+		vAssert(isWrapped, "debug.returns_the_wrapped_connection")
+	}
 	var got []byte
 	if br != nil {
 		n := br.Buffered()
@@ -66,4 +76,9 @@ func C11_debug_dialer() {
 		}
 	}
 	vAssert(vEqBytes(got, trailing), "debug.trailing_bytes_preserved")
+}
+
+// vWrapConn: a caller-side connection wrapper (stands for encryption, accounting, ...).
+type vWrapConn struct {
+	net.Conn
 }
